@@ -220,6 +220,10 @@ func construct(sc scenario, opts *neat.Options, rec *epochRec) (*genetics.Popula
 		g := richStart()
 		p, err := genetics.NewPopulation(g, opts)
 		return p, g, "NewPopulation", err
+	case "outfirst":
+		g := outFirstStart()
+		p, err := genetics.NewPopulation(g, opts)
+		return p, g, "NewPopulation", err
 	case "modular":
 		g := modularStart()
 		p, err := genetics.NewPopulation(g, opts)
